@@ -3,11 +3,14 @@
 /tmp/seedtools/prompt-<workspace-name>.md, from the template of an existing prompt."""
 import json, sys, re
 PID, ws = sys.argv[1].upper(), sys.argv[2]
+focus = sys.argv[3] if len(sys.argv) > 3 else ''
 d = next(json.loads(l) for l in open('/verif/properties.jsonl') if json.loads(l)['id'] == PID)
 t = open('/tmp/seedtools/prompt-C15.md').read()
 head, rest = t.split('PROPERTY C15:', 1)
 _, tail = rest.split('YOUR WORKSPACE:', 1)
 prop = 'PROPERTY %s: %s\n%s\n\n(quantified over: %s)\nRelevant files: %s\n\n' % (PID, d['title'], d['statement'], d['quantifier']['text'], ', '.join(d['anchors']['files']))
+if focus:
+    prop += 'FOCUS: make your change break THIS part of the property (quoted from the text above): "%s"\n\n' % focus
 tail = tail.replace('seed-c15', ws).replace('"C15"', '"%s"' % PID)
 open('/tmp/seedtools/prompt-%s.md' % ws, 'w').write(head + prop + 'YOUR WORKSPACE:' + tail)
 print('/tmp/seedtools/prompt-%s.md' % ws)
